@@ -50,7 +50,7 @@ def op_term(op):
     if k == "Pop":
         return C(k, opt(op[1]))
     if k == "Sort":
-        return C(k, bool(op[1]))
+        return C(k, op[2] if len(op) > 2 else 0, bool(op[1]))
     if k in ("Reverse", "Clear"):
         return C(k)
     raise ValueError(op)
@@ -84,17 +84,22 @@ def op_shape(op):
     return k
 
 
+def tgt_name(case):
+    ch = case.get("channel", "notifier")
+    return case["target"] + ("" if ch == "notifier" else "-" + ch)
+
+
 def key_fn(case, obs, step, clause):
-    return "%s/%s/%s" % (CLAUSE.get(clause, clause), op_shape(case["ops"][step]), case["target"])
+    return "%s/%s/%s" % (CLAUSE.get(clause, clause), op_shape(case["ops"][step]), tgt_name(case))
 
 
 def describe(case, obs, step, clause):
     return "TraitList (%s, validator %s): clause %s fails at step %d op %r: observed %r" % (
-        case["target"], case["vk"], CLAUSE.get(clause, clause), step, case["ops"][step], obs[step])
+        tgt_name(case), case["vk"], CLAUSE.get(clause, clause), step, case["ops"][step], obs[step])
 
 
 def nontrivial(case, obs):
-    sig = repr((case["vk"], case["target"], case.get("minlen"), case.get("maxlen"), case["init"], case["ops"]))
+    sig = repr((case["vk"], tgt_name(case), case.get("minlen"), case.get("maxlen"), case["init"], case["ops"]))
     nt = any(o["events"] or o["out"] != "Ok" for o in obs)
     return sig, nt
 
@@ -104,11 +109,18 @@ def _v(vk, a):
     """generation hint only: the validated atom or None"""
     if vk == "VAll":
         return a
+    if vk == "VInc":
+        return a + 1 if 0 <= a < 90 else None
     if 0 <= a < 100:
         return a
     if vk == "VCInt" and 100 <= a < 200:
         return a - 100
     return None
+
+
+def vinit(rnd, vk):
+    """a valid stored atom for the initial contents"""
+    return rnd.randint(1, 10) if vk == "VInc" else rnd.randint(0, 9)
 
 
 def hint_apply(vk, cur, op):
@@ -148,7 +160,8 @@ def hint_apply(vk, cur, op):
         elif k == "Reverse":
             cur.reverse()
         elif k == "Sort":
-            cur.sort(reverse=bool(op[1]))
+            m = op[2] if len(op) > 2 else 0
+            cur.sort(key=(lambda x: x % m) if m else None, reverse=bool(op[1]))
         elif k == "Clear":
             del cur[:]
     except Exception:  # noqa
@@ -231,16 +244,18 @@ def gen_op(rnd, vk, cur):
             return [k, 100 + x if 0 <= x < 100 else x]     # the string form of a present int: must not match
         return [k, rnd.choice([0, 3, 9, 11, 105, 200])]
     if k == "Sort":
-        return [k, rnd.random() < 0.4]
+        return [k, rnd.random() < 0.4, rnd.choice([0, 0, 2, 3, 5])]
     return [k]
 
 
 def gen_case(rnd, ctx, maxops, maxinit, target=None, bounds=None):
-    vk = rnd.choice(["VAll", "VInt", "VCInt", "VCInt"])
+    vk = rnd.choice(["VAll", "VInt", "VCInt", "VCInt", "VInc"])
     target = target or rnd.choice(["plain", "plain", "obj"])
     n0 = rnd.choice([0, 1, 2, 3, 4, 5, 6, rnd.randint(0, maxinit)])
-    valid = list(range(0, 10)) + ([101, 103, 200] if vk == "VAll" else [])
+    valid = list(range(1, 11)) if vk == "VInc" else list(range(0, 10)) + ([101, 103, 200] if vk == "VAll" else [])
     case = dict(vk=vk, target=target)
+    if target == "obj":
+        case["channel"] = rnd.choice(["notifier", "notifier", "observe", "items"])
     if bounds is not None:
         case["minlen"], case["maxlen"] = bounds
         lo, hi = bounds[0], (bounds[1] if bounds[1] is not None else max(bounds[0], n0))
@@ -257,7 +272,7 @@ def gen_case(rnd, ctx, maxops, maxinit, target=None, bounds=None):
             break
     case.update(init=init, ops=ops)
     ctx.count("validator:" + vk)
-    ctx.count("target:" + target)
+    ctx.count("target:" + tgt_name(case))
     ctx.count("history-length:%02d" % len(ops))
     return case
 
@@ -266,15 +281,15 @@ def corpus():
     """Fixed cases run first on every run: the documented corner cases of the normalisation and
     shapes that past versions of this check or its mutation tests needed."""
     cs = []
-    for tgt in ("plain", "obj"):
-        cs.append(dict(vk="VCInt", target=tgt, init=[1, 2, 3, 4, 5], ops=[
+    for tgt, ch in (("plain", "notifier"), ("obj", "notifier"), ("obj", "observe"), ("obj", "items")):
+        cs.append(dict(vk="VCInt", target=tgt, channel=ch, init=[1, 2, 3, 4, 5], ops=[
             ["SetSlice", [None, None, -2], [7, 108, 9]], ["DelSlice", [None, None, -2]],
             ["SetSlice", [3, 1, None], [6]], ["SetSlice", [1, None, 10], [5]], ["DelSlice", [5, 0, -3]],
-            ["SetSlice", [0, 0, None], []], ["Sort", False], ["Sort", False], ["Reverse"],
+            ["SetSlice", [0, 0, None], []], ["Sort", False], ["Sort", False], ["Sort", True, 3], ["Sort", False, 2], ["Reverse"],
             ["SetInt", -1, 104], ["SetInt", 7, 200], ["SetInt", 7, 1], ["Pop", -9], ["Pop", None],
             ["Insert", -100, 3], ["Insert", 100, 103], ["Imul", 2], ["Imul", 0], ["Imul", 3], ["Clear"], ["Clear"],
             ["Remove", 3], ["Append", 3], ["Remove", 103], ["Remove", 3]]))
-        cs.append(dict(vk="VInt", target=tgt, init=[0, 1, 2, 3, 4, 5, 6, 7], ops=[
+        cs.append(dict(vk="VInt", target=tgt, channel=ch, init=[0, 1, 2, 3, 4, 5, 6, 7], ops=[
             ["SetSlice", [None, None, 3], [9, 9]], ["SetSlice", [None, None, 3], [9, 9, 200]],
             ["SetSlice", [None, None, 3], [9, 200]],
             ["SetSlice", [None, None, 3], [9, 8, 7]], ["SetSlice", [-1, None, -3], [1, 2, 3]],
@@ -304,8 +319,8 @@ def grid_ops(b):
         ops += [["DelInt", i], ["SetInt", i, 99], ["SetInt", i, 199], ["SetInt", i, 200], ["Insert", i, 99],
                 ["Insert", i, 200], ["Pop", i], ["Imul", i], ["Remove", 10 + i]]
     ops += [["Pop", None], ["Append", 5], ["Append", 105], ["Append", 200], ["Extend", [5, 6]], ["Extend", []],
-            ["Extend", [5, 200]], ["Iadd", [5, 106]], ["Iadd", []], ["Clear"], ["Reverse"], ["Sort", False],
-            ["Sort", True]]
+            ["Extend", [5, 200]], ["Iadd", [5, 106]], ["Iadd", []], ["Clear"], ["Reverse"], ["Sort", False, 0],
+            ["Sort", True, 0], ["Sort", False, 3], ["Sort", True, 3], ["Sort", True, 2]]
     for s in slices(b):
         ops.append(["DelSlice", s])
         ops += [["SetSlice", s, v] for v in VALUES]
@@ -325,7 +340,8 @@ def parse_zlists(out):
     return res
 
 
-def run_grid(ctx, configs, b, bs, relation, header=HEADER, digest_fn="grid_digests", hist_kw=None):
+def run_grid(ctx, configs, b, bs, relation, header=HEADER, digest_fn="grid_digests", hist_kw=None, mk_case=None,
+             driver=None):
     """configs: list of dict(target, vk, n, minlen, maxlen).  Digests of blocks of `bs` single-operation cases are
     computed by the model inside Coq and by the driver on the implementation; differing blocks are re-run as
     embedded cases (correspondence + law) to locate the failing input."""
@@ -378,12 +394,12 @@ def run_grid(ctx, configs, b, bs, relation, header=HEADER, digest_fn="grid_diges
                     c = dict(target=cf["target"], vk=cf["vk"], init=grid_init(cf["n"]), ops=[op])
                     if cf["target"] == "obj":
                         c["minlen"], c["maxlen"] = cf.get("minlen", 0), cf.get("maxlen")
-                    bad_cases.append(c)
+                    bad_cases.append(mk_case(c) if mk_case else c)
     ctx.cov["evaluations"] += total
     ctx.cov["traces_validated_against_impl"] += total
     ctx.cov["grid_single_operation_cases"] = ctx.cov.get("grid_single_operation_cases", 0) + total
     if bad_cases:
-        hist.run(ctx, DRIVER, bad_cases[:6000], relation=relation + " (blocks whose digests differ)",
+        hist.run(ctx, driver or DRIVER, bad_cases[:6000], relation=relation + " (blocks whose digests differ)",
                  tag="gridbad", **hist_kw)
         if ctx.obl and ctx.obl[-1][0].startswith("correspondence " + relation) and ctx.obl[-1][1]:
             # the embedded re-run of the differing blocks shows no disagreement at all
